@@ -227,7 +227,9 @@ func NewCase(o Opts) (*Case, error) {
 	c.Addr = fmt.Sprintf("127.0.0.1:%d", FreePort())
 
 	// cluster + hosts
-	cl := v2.Cluster{Name: c.ClusterName, ClusterType: v2.SIMPLE_CLUSTER, LbType: v2.LB_ROUNDROBIN, MaxRequestPerConn: 1024, ConnBufferLimitBytes: 16 * 1024}
+	// cluster_pool_enable: the case's pools belong to its own cluster (the default pools are global per protocol and
+	// address and would be inherited by a later case whose upstream happens to get the same port)
+	cl := v2.Cluster{Name: c.ClusterName, ClusterType: v2.SIMPLE_CLUSTER, LbType: v2.LB_ROUNDROBIN, MaxRequestPerConn: 1024, ConnBufferLimitBytes: 16 * 1024, ClusterPoolEnable: true}
 	if o.Cluster != nil {
 		o.Cluster(&cl)
 	}
